@@ -90,9 +90,100 @@ func rulesC09(c *Ctx) {
 				}
 			}
 		}
+		ff := p.FuncFlow()
+		// a reporter: a closure built here (directly or by a factory handed the sink) that cannot return
+		// without having called the sink it captured
+		reporter := func(f *ssa.Function) bool {
+			if f == nil || f.Blocks == nil {
+				return false
+			}
+			var captured []*ssa.FreeVar
+			for _, fv := range f.FreeVars {
+				b := ff.binding[fv]
+				for i := 0; i < 4 && b != nil; i++ {
+					if b == ssa.Value(ci.sink) {
+						captured = append(captured, fv)
+						break
+					}
+					// a variable captured by reference: its single store
+					if al, isAl := b.(*ssa.Alloc); isAl {
+						var sv ssa.Value
+						n := 0
+						for _, r := range *al.Referrers() {
+							if st, isSt := r.(*ssa.Store); isSt && st.Addr == ssa.Value(al) {
+								n++
+								sv = st.Val
+							}
+						}
+						if n != 1 {
+							break
+						}
+						b = sv
+						continue
+					}
+					// handed through the factory's own parameter
+					prm, isPrm := b.(*ssa.Parameter)
+					if !isPrm {
+						break
+					}
+					b = nil
+					for k, q := range prm.Parent().Params {
+						if q == prm {
+							for _, a := range ff.paramArgs[prm.Parent()][k] {
+								if a == ssa.Value(ci.sink) {
+									b = a
+								}
+							}
+						}
+					}
+				}
+			}
+			if len(captured) == 0 {
+				return false
+			}
+			calls := func(in ssa.Instruction) bool {
+				call, ok := in.(ssa.CallInstruction)
+				if !ok {
+					return false
+				}
+				v := call.Common().Value
+				if ld, isLd := v.(*ssa.UnOp); isLd && ld.Op == token.MUL {
+					v = ld.X
+				}
+				for _, fv := range captured {
+					if v == ssa.Value(fv) {
+						return true
+					}
+				}
+				return false
+			}
+			return noPathAvoiding(f, calls, nil)
+		}
 		isSink := func(in ssa.Instruction) bool {
 			call, ok := in.(ssa.CallInstruction)
-			return ok && (call.Common().Value == ssa.Value(ci.sink) || fi.canon(call.Common().Value) == ssa.Value(ci.sink))
+			if !ok {
+				return false
+			}
+			if call.Common().Value == ssa.Value(ci.sink) || fi.canon(call.Common().Value) == ssa.Value(ci.sink) {
+				return true
+			}
+			if call.Common().IsInvoke() {
+				return false
+			}
+			if sc := call.Common().StaticCallee(); sc != nil {
+				// a closure called directly
+				return sc.Parent() != nil && reporter(sc)
+			}
+			targets := ff.Resolve(call.Common().Value, 0)
+			if len(targets) == 0 {
+				return false
+			}
+			for _, t := range targets {
+				if !reporter(t) {
+					return false
+				}
+			}
+			return true
 		}
 		nGuarded := 0
 		for _, w := range writes {
